@@ -310,3 +310,95 @@ func scC10(r *Run) {
 func init() {
 	register(&PropDef{ID: "C10", Quick: 1000, Thorough: 25000, Profiles: []ProfileDef{{Name: "stub", Share: 1, Sc: scC10}}})
 }
+
+// scC20E2E: end-to-end look-ahead bound of the non-Low-Latency download pipeline: however fast the server
+// is, at most two downloaded segments wait while another one is being processed.
+func scC20E2E(r *Run) {
+	T := r.T
+	g := &originGen{containers: []string{"ts", "fmp4"}, modes: []string{"vod", "vod", "event"}, minSegs: 5, maxSegs: 14,
+		renditions: true, byteRanges: true, multiFrag: false, segDurMs: []int{400, 1000, 2000}, noPDTChance: 5}
+	o := genStubOrigin(r, g)
+	for _, st := range o.streams {
+		if st.mode != "vod" {
+			st.endAfter = len(st.segs)
+			for _, sg := range st.segs {
+				sg.availAt = 0 // everything is available at once: the server is as fast as it can be
+			}
+		}
+	}
+	w := newCliWorld(r, o, o.primaryURL(), plainFate(T, Pick(T, 0, 0, 5, 100, 3000)))
+	total := time.Duration(len(o.streams[0].segs)) * o.streams[0].segs[0].dur
+	w.limit = 3*total + 90*time.Second
+	w.afterWait = time.Second
+	r.Tracef("origin container=%s mode=%s streams=%d segs=%d dur=%v", o.streams[0].container, o.streams[0].mode, len(o.streams), len(o.streams[0].segs), o.streams[0].segs[0].dur)
+	w.run()
+	r.Tracef("end: wait=%v err=%s requests=%d", w.waitSeen, describeErr(w.waitErr), len(w.net.log))
+	dl := downloadedSegments(w, o)
+	w.mu.Lock()
+	deliveries := w.deliveries
+	w.mu.Unlock()
+	// client track index of each (stream, track)
+	ci := 0
+	for _, st := range o.streams {
+		reqs := dl[st]
+		// time at which each downloaded segment was fully delivered (all its units, all tracks of the stream)
+		doneAt := make([]time.Duration, len(reqs))
+		complete := make([]bool, len(reqs))
+		for k := range reqs {
+			complete[k] = true
+		}
+		for ti, t := range st.tracks {
+			if ci+ti >= len(deliveries) {
+				break
+			}
+			got := deliveries[ci+ti]
+			pos := 0
+			for k, nr := range reqs {
+				_, sg := st.classify(nr)
+				n := sg.count[ti]
+				// units preceding the origin are dropped: match by data from the current position
+				last := time.Duration(-1)
+				for j := 0; j < n; j++ {
+					u := t.units[sg.first[ti]+j]
+					if pos < len(got) && sameData(got[pos].data, u.data) {
+						last = got[pos].at
+						pos++
+					} else if pos < len(got) && k > 0 {
+						complete[k] = false
+					}
+				}
+				if n > 0 && pos <= len(got) && last >= 0 {
+					if last > doneAt[k] {
+						doneAt[k] = last
+					}
+				} else if n > 0 && k > 0 {
+					complete[k] = false
+				}
+			}
+		}
+		ci += len(st.tracks)
+		// at the moment each download completes: downloaded - fully delivered <= 3
+		for k, nr := range reqs {
+			t := nr.deliveredAt
+			done := 0
+			for j := 0; j < k; j++ {
+				if complete[j] && doneAt[j] <= t {
+					done++
+				}
+			}
+			if ahead := (k + 1) - done; ahead > 3 {
+				r.Fail("look-ahead", "exceeded", "stream %s: when segment #%d finished downloading at %v, %d downloaded segments were not fully delivered yet (bound: two waiting + one in process)",
+					st.name, k, t, ahead)
+				return
+			} else if ahead == 3 {
+				r.Probe("look-ahead-at-bound")
+			}
+		}
+	}
+	r.Stats.NonTrivial = len(dl[o.streams[0]]) >= 4
+	w.finish()
+}
+
+func init() {
+	Properties["C20"].Profiles = append(Properties["C20"].Profiles, ProfileDef{Name: "e2e", Share: 1, Sc: scC20E2E})
+}
